@@ -248,3 +248,94 @@ func VH_C05_C10_SectionWalk() {
 		vh.Assert(bytes.Equal(b.Exchanges[0].Response.Body, body), "body is exactly the bytes found at the in-bounds location")
 	}
 }
+
+// c05Item parses file[abs:abs+ln] as exactly one response item 82 bstr(headers) bstr(body) (independent walker).
+func c05Item(file []byte, abs, ln uint64) (body []byte, ok bool) {
+	ent := file[abs : abs+ln]
+	if len(ent) == 0 || ent[0] != 0x82 {
+		return nil, false
+	}
+	m1, l1, q1, ok1 := refReadHead(ent, 1)
+	if !ok1 || m1 != 2 || l1 > uint64(len(ent))-q1 {
+		return nil, false
+	}
+	m2, l2, q2, ok2 := refReadHead(ent, q1+l1)
+	if !ok2 || m2 != 2 || l2 != uint64(len(ent))-q2 {
+		return nil, false
+	}
+	return ent[q2 : q2+l2], true
+}
+
+// VH_C05_C10_VariantLocations: b1 bundle whose single index entry carries a Variants value with two possible keys
+// ("Accept-Language;en;ja") and therefore TWO (offset, length) locations; the responses section holds two response
+// items (symbolic one-byte bodies).  One of the two locations - the first or the second - is a pair of fully
+// SYMBOLIC 64-bit values (all 2^128 combinations, incl. "same offset as the other location with another length",
+// wrap-around, out of range, the other item, a sub-range), the other one is consistent.  Read must not panic; if it
+// accepts, BOTH locations must delimit exactly one complete response item inside the responses section (independent
+// walker, wrap-around checked) and Read returns two exchanges whose bodies are the bytes at those locations, in
+// order; the consistent file is accepted.  Seed C05-4 (locations repeating an earlier offset skipped before the
+// bounds check) was missed: every skeleton had one location per URL.
+func VH_C05_C10_VariantLocations() {
+	vh.MustReach("accept", "reject", "consistent")
+	hdr := append(refHead(5, 1), append(refBstr([]byte(":status")), refBstr([]byte("200"))...)...)
+	bodies := vh.Bytes("bodies", 2)
+	itemA := append([]byte{0x82}, append(refBstr(hdr), refBstr(bodies[0:1])...)...)
+	itemB := append([]byte{0x82}, append(refBstr(hdr), refBstr(bodies[1:2])...)...)
+	resp := append(refHead(4, 2), append(append([]byte{}, itemA...), itemB...)...)
+	symSecond := vh.Choose(2) == 1
+	o1H, o1 := c05Field(!symSecond, "off1", 1)
+	l1H, l1 := c05Field(!symSecond, "len1", uint64(len(itemA)))
+	o2H, o2 := c05Field(symSecond, "off2", 1+uint64(len(itemA)))
+	l2H, l2 := c05Field(symSecond, "len2", uint64(len(itemB)))
+	index := append(refHead(5, 1), refTstr("https://a/")...)
+	index = append(index, 0x85)
+	index = append(index, refBstr([]byte("Accept-Language;en;ja"))...)
+	for _, h := range [][]byte{o1H, l1H, o2H, l2H} {
+		index = append(index, h...)
+	}
+	tbl := refHead(4, 4)
+	tbl = append(tbl, refTstr("index")...)
+	tbl = append(tbl, refHead(0, uint64(len(index)))...)
+	tbl = append(tbl, refTstr("responses")...)
+	tbl = append(tbl, refHead(0, uint64(len(resp)))...)
+	f := []byte{0x86, 0x48, 0xf0, 0x9f, 0x8c, 0x90, 0xf0, 0x9f, 0x93, 0xa6, 0x44, 0x62, 0x31, 0x00, 0x00}
+	f = append(f, refTstr("https://a/")...)
+	f = append(f, refBstr(tbl)...)
+	f = append(f, refHead(4, 2)...)
+	f = append(f, index...)
+	respStart := uint64(len(f))
+	f = append(f, resp...)
+	f = append(f, append([]byte{0x48}, 0, 0, 0, 0, 0, 0, 0, byte(len(f)+9))...)
+	consistent := o1 == 1 && l1 == uint64(len(itemA)) && o2 == 1+uint64(len(itemA)) && l2 == uint64(len(itemB))
+	var b *Bundle
+	var err error
+	panicked := vh.Try(func() { b, err = Read(bytes.NewReader(f)) })
+	vh.Assert(!panicked, "Read does not panic")
+	if panicked {
+		return
+	}
+	if consistent {
+		vh.Reach("consistent")
+		vh.Assert(err == nil, "the consistent two-location bundle is accepted")
+	}
+	if err != nil {
+		vh.Reach("reject")
+		return
+	}
+	vh.Reach("accept")
+	lr := uint64(len(resp))
+	e1, nw1 := addNoWrap(o1, l1)
+	e2, nw2 := addNoWrap(o2, l2)
+	inb := nw1 && nw2 && e1 <= lr && e2 <= lr
+	vh.Assert(inb, "accepted => every location of the entry lies inside the responses section (no wrap-around)")
+	if !inb {
+		return
+	}
+	b1, ok1 := c05Item(f, respStart+o1, l1)
+	b2, ok2 := c05Item(f, respStart+o2, l2)
+	vh.Assert(ok1 && ok2, "accepted => every location delimits exactly one complete response item")
+	vh.Assert(len(b.Exchanges) == 2, "one exchange per location")
+	if ok1 && ok2 && len(b.Exchanges) == 2 {
+		vh.Assert(bytes.Equal(b.Exchanges[0].Response.Body, b1) && bytes.Equal(b.Exchanges[1].Response.Body, b2), "bodies are exactly the bytes at the two locations, in order")
+	}
+}
